@@ -87,3 +87,75 @@ func H_C06_thresh() {
 	vAssert("C06.threshold.len", len(z1) == len(z2))
 	vReach("end")
 }
+
+// H_C06_divbasic: Knuth's algorithm D on a normalised divisor (top word >= D/2),
+// dividend of n+k words whose top word is below the divisor's top word.
+func H_C06_divbasic() {
+	n, k := vCfg("n"), vCfgOr("k", 1)
+	v := vNat("v", n, false)
+	vAssume(v[n-1] >= _DB/2)
+	u := vNat("u", n+k, false)
+	vAssume(u[n+k-1] < v[n-1])
+	U, V := sFromWords(u), sFromWords(v)
+	q := make(dec, k)
+	kk := vCatch(func() { q.divBasic(u, v) })
+	vAssert("C04.nopanic", kk == 0)
+	ok := true
+	for i := range u {
+		ok = vAnd(ok, u[i] < _DB)
+	}
+	for i := range q {
+		ok = vAnd(ok, q[i] < _DB)
+	}
+	vAssert("C06.divbasic.words", ok)
+	R := sFromWords(u)
+	vAssert("C06.divbasic.identity", sEq(U, sAdd(sMul(sFromWords(q), V), R)))
+	vAssert("C06.divbasic.remainder", sLt(R, V))
+	vReach("end")
+}
+
+// extremal divisor words for Knuth's algorithm D: the quotient-digit estimate is
+// worst when the top word is as small as normalisation allows and the next is large
+func patWord(code int) Word {
+	switch code {
+	case 0:
+		return 0
+	case 1:
+		return 1
+	case 2:
+		return _DB / 2
+	case 3:
+		return _DB/2 + 1
+	case 4:
+		return _DMax
+	case 5:
+		return _DMax - 1
+	case 6:
+		return _DB / 10 * 7
+	}
+	return 12345678901234567
+}
+
+// H_C06_divpat: dec.div (divLarge/divBasic with normalisation) for a CONCRETE
+// divisor from the extremal pattern list and an arbitrary dividend: with the
+// divisor fixed every product is linear and the solver decides all dividends.
+func H_C06_divpat() {
+	n, m := vCfg("n"), vCfg("m")
+	v := make(dec, n)
+	for i := 0; i < n; i++ {
+		v[i] = patWord(vCfg(vN("v", i)))
+	}
+	u := vNat("u", m, true)
+	U, V := sFromWords(u), sFromWords(v)
+	var q, r dec
+	k := vCatch(func() { q, r = q.div(nil, u, v) })
+	vAssert("C04.nopanic", k == 0)
+	if k != 0 {
+		return
+	}
+	Q, R := sFromWords(q), sFromWords(r)
+	vAssert("C06.div.identity", sEq(U, sAdd(sMul(Q, V), R)))
+	vAssert("C06.div.remainder", sLt(R, V))
+	vAssert("C06.div.words", vAnd(wordsOK(q), wordsOK(r)))
+	vReach("end")
+}
